@@ -16,4 +16,12 @@ for d in seeded/${1:-}*/; do
   notes=$(grep -c '^NOTE' /tmp/seed_check_$prop.log)
   echo "| $n | $prop | $rc | $v | $clause (NOTE lines: $notes) |" >> $OUT
   echo "$line" | cut -c1-160
+  for other in $(python3 -c "import json;print(' '.join(json.load(open('$d/meta.json')).get('also_checks',[])))"); do
+    line=$(tools/seedcheck.sh $n $other | tail -1)
+    rc=$(echo "$line" | sed -E 's/.*exit ([0-9]+),.*/\1/')
+    v=$(echo "$line" | sed -E 's/.*, ([0-9]+) VIOLATION.*/\1/')
+    clause=$(grep -m1 'clause:' /tmp/seed_check_$other.log | sed 's/^ *clause: //' | cut -c1-100)
+    echo "| $n | $other (other property) | $rc | $v | $clause |" >> $OUT
+    echo "$line" | cut -c1-160
+  done
 done
